@@ -46,6 +46,15 @@ func (t T5) Tag() (int, int) { return t.P, t.S }
 func (t T6) Tag() (int, int) { return t.P, t.S }
 func (t T7) Tag() (int, int) { return t.P, t.S }
 
+// Opaque is comparable but cannot be used as a cache key: the interface-typed field is unexported,
+// so nject cannot inspect its value (mappable, yet not a possible map key).
+type Opaque struct {
+	P, S int
+	x    any
+}
+
+func (t Opaque) Tag() (int, int) { return t.P, t.S }
+
 type tagged interface{ Tag() (int, int) }
 
 // errVal is the error / TerminalError value scripts return.
@@ -66,6 +75,7 @@ type poolType struct {
 	allowShadow func(any) nject.Provider
 	prod        int // for interfaces: index in pool of the concrete type scripts produce
 	unhashable  bool
+	nokey       bool // mappable, but never a possible map key
 }
 
 func conc[T any](name string, mk func(p, s int) T) *poolType {
@@ -83,6 +93,13 @@ func conc[T any](name string, mk func(p, s int) T) *poolType {
 func concU[T any](name string, mk func(p, s int) T) *poolType {
 	pt := conc(name, mk)
 	pt.unhashable = true
+	return pt
+}
+
+// concK: like conc, for types that are comparable but never accepted as cache keys
+func concK[T any](name string, mk func(p, s int) T) *poolType {
+	pt := conc(name, mk)
+	pt.nokey = true
 	return pt
 }
 
@@ -119,6 +136,7 @@ const (
 	pSlice
 	pMap
 	pAnonFn
+	pOpaque
 	poolSize
 )
 
@@ -145,6 +163,7 @@ var pool = []*poolType{
 	concU("[]int", func(p, s int) []int { return []int{p, s} }),
 	concU("map[string]int", func(p, s int) map[string]int { return map[string]int{"p": p, "s": s} }),
 	concU("func()", func(p, s int) func() { return func() {} }),
+	concK("Opaque", func(p, s int) Opaque { return Opaque{P: p, S: s} }),
 }
 
 var (
@@ -193,6 +212,9 @@ func typeTable() string {
 		mappable, mapkey, anon := 1, 1, 0
 		if pt.unhashable {
 			mappable, mapkey = 0, 0
+		}
+		if pt.nokey {
+			mapkey = 0
 		}
 		if pt.t.Kind() == reflect.Func && pt.t.Name() == "" {
 			anon = 1
